@@ -17,6 +17,9 @@ CHECKS = {
  "C16": dict(level="model_checking", technique="TLA+ decoder machine with Truncate action (TruncErr/WorkBound invariants, TLC); truncated and length-corrupted inputs derived from TLC's canonical bytes and count-prefix offsets, outcomes judged by TLC's Parse",
    text="TLC proves on the bounded model that every strict byte prefix drives the specified decoder to an error and that decoder work is bounded by input length; for TLC-emitted and random cases every byte prefix and every corrupted count prefix (2^32-1, 2^31, 2^16, n+1) is fed to fcp.serde.decode; TLC decides per input whether the specification's parser overruns, in which case decode must raise (bounded time).",
    design="5 C16", note=TB + "; wall-clock limit 5 s per call as the unbounded-work detector"),
+ "C04": dict(level="model_checking", technique="TLA+ spec of the PackedEncoder object (LayoutM) model-checked over all call histories; TLC-emitted histories replayed into one real encoder object; recorded random histories validated by TLC (Trace_Layout)",
+   text="MC_Layout: TLC explores every sequence of generate() calls (<=3 quick, <=4 thorough) on one encoder over a bounded universe of fixed-size schemas (enum widths 1,2,3,5,8, nested structs, arrays of scalars/structs/arrays, ids against declaration order, signal blocks) and checks HistoryIndependent, Tiles, StartsAtZero, UniqueNames, LenIsWireWidth, OptionsOnOwnLeaf in every state; every emitted history is replayed into a real PackedEncoder and compared leaf by leaf; random larger shapes with histories up to 12 calls are recorded and judged by Trace_Layout.",
+   design="5 C04", note=TB),
 }
 
 def entry(pid, c):
